@@ -33,6 +33,7 @@ EXPLANATION += (' R-C08-9: the curve data the accessor computes with has a float
 EXPLANATION += (' R-C08-11: in basquin_cycles and basquin_load the object whose parameters are used is, on every path, transform_to_failure_probability(<requested probability>) of the curve.')
 EXPLANATION += (' R-C08-12: no absolute tolerance (np.isclose, rounding, small fixed thresholds / offsets) on loads or cycle numbers in the Woehler curve module (shared rule sa/tolerance.py).')
 EXPLANATION += (' R-C08-13 (shared state-family rules, sa/statefam.py): no method of the Woehler curve accessor returns the very object it keeps in a memo container of the accessor, no mutable class attribute is changed through an instance, no partially keyed memo.')
+EXPLANATION += (' R-C08-14 (shared rule sa/units.py): in the Woehler curve module every power whose exponent is not a literal is taken of a quotient or of a scatter ratio (TN, TS), not of a quantity that carries the load or cycle unit.')
 ASSUMPTIONS = [
     "k_1, SD, ND, TN, TS positive; np.power/** follow real powers on positive bases",
     "pandas .copy() returns an independent object",
@@ -57,8 +58,36 @@ def _strip(e):
 
 
 def run(ctx):
-    for r in (_r1, _r2, _r3, _r4, _r5, _r6, _r7, _r8, _r9, _r10, _r11, _r12, _r13):
+    for r in (_r1, _r2, _r3, _r4, _r5, _r6, _r7, _r8, _r9, _r10, _r11, _r12, _r13, _r14):
         ctx.attempt(r)
+
+
+def _r14(ctx):
+    """R-C08-14 (shared rule sa/units.py): every power with a slope in its exponent is taken of a ratio (S / SD, N / ND) or of a scatter
+    ratio (TN, TS).  `ND * SD ** k` with SD in Pa and a Haibach slope of 39 overflows float64 although `SD * (N / ND) ** (-1 / k)` is an
+    ordinary number: load() then returns inf on that branch only, the two functions stop being inverse and the result depends on the
+    unit of the loads."""
+    from .. import units
+    prog = ctx.prog
+    if not units.selfcheck():
+        raise AnalysisError("dimensionful-power rule: built-in example not matched")
+    ctx.rule("R-C08-14", floor=2, what="powers with a slope exponent are taken of ratios")
+    n = 0
+    for key, fi in sorted(prog.functions.items()):
+        if fi.module.name != "pylife.materiallaws.woehlercurve" or fi.parent is not None:
+            continue
+        hits = units.dimensionful_power_bases(fi.node, ("TN", "TS"))
+        for node, base, expo in hits:
+            n += 1
+            ctx.violated(fi, node, "%s raises %s - a quantity with a unit - to the power %s: for loads in Pa and a steep second slope the power "
+                         "leaves the range of float64 (inf) although the same law written in the ratios S / SD and N / ND does not" % (fi.qualname, base, expo),
+                         text="power of the dimensionful %s in %s" % (base, fi.qualname))
+        if not hits and any(isinstance(x, ast.Call) and (call_name(x) or "") in units.POWER_CALLS or isinstance(x, ast.BinOp) and isinstance(x.op, ast.Pow)
+                            for x in ast.walk(fi.node)):
+            n += 1
+            ctx.holds(fi, fi.node, "%s: powers of ratios / scatter ratios only" % fi.qualname)
+    if n < 2:
+        raise AnalysisError("fewer than two functions with powers found in the Woehler curve module")
 
 
 def _r13(ctx):
